@@ -160,7 +160,9 @@ def run(ctx):
                 return True
             if c['kind'] == 'Eq' and c.get('truth') is True and is_len(c['a']) and c.get('b') is not None and is_const(c['b'], 1):
                 return True
-        return False
+        # exactly one action left by guard clauses (`if v.is_empty() {..} else if v.len() > 1 {..}`)
+        lo, hi = q.len_lower_bound(f, bi), q.len_upper_bound(f, bi)
+        return any(lo.get(k_) == 1 and v_ == 1 for k_, v_ in hi.items())
 
     # the recall witness, identified by type rather than by name: the per-player array-of-Option parameter of
     # init_recurse and the Option-typed field of the infoset builder
@@ -262,7 +264,10 @@ def run(ctx):
             differs = any(((c['kind'] == 'Ne' and c['truth'] is True) or (c['kind'] == 'Eq' and c['truth'] is False)) and not (strip_refs(c['a'])[0] == 'call' and short(strip_refs(c['a'])[1]) == 'len') for c in cs)
             if gg is f and single_arm(bi) and present and differs:
                 occ_ne = True
-    ctx.verdict(occ_ne, rule, '%s:same-action:%s' % (rule, top), 'a re-met single-action infoset with a different action is rejected (ActionsNotEqual on the unequal edge)', '', 'found: %s' % occ_ne)
+    if not occ_ne and not sins and not recs:
+        ctx.anchor_lost(rule, 'init_recurse: the single-action arm')
+    else:
+      ctx.verdict(occ_ne, rule, '%s:same-action:%s' % (rule, top), 'a re-met single-action infoset with a different action is rejected (ActionsNotEqual on the unequal edge)', '', 'found: %s' % occ_ne)
 
     # ---- R7 the witness handed to a child depends on which child it is
     rule = 'C11.recall-witness-action'
